@@ -60,7 +60,36 @@ func (it *Interp) storeRangeIterator(v *StoreView, start, end *StrV, reverse boo
 		rel := k
 		if v.prefix != nil {
 			if !isPlainB(v.prefix) {
-				it.fail("prefix iteration needs a structured prefix")
+				// opaque prefix (e.g. a client store under a symbolic chain name): a key lies under it if it was built
+				// as prefix ++ rest from the very same prefix term; keys whose known leading bytes differ lie outside
+				pt, kt := it.toA(v.prefix), it.toA(k)
+				var rest *Term
+				switch {
+				case kt == pt:
+					rest = it.litTerm("")
+				case kt.op == "app" && kt.name == "concat" && kt.args[0] == pt:
+					rest = kt.args[1]
+				default:
+					kp, _ := it.knownPrefix(kt)
+					pp, _ := it.knownPrefix(pt)
+					n := len(kp)
+					if len(pp) < n {
+						n = len(pp)
+					}
+					if kp[:n] != pp[:n] {
+						continue
+					}
+					it.fail("prefix iteration: cannot decide whether key %s lies under the opaque prefix %s", it.describe(k), it.describe(v.prefix))
+				}
+				r := it.fromA(rest)
+				if isPlainB(r) {
+					ks = append(ks, r)
+				} else {
+					ks = append(ks, r)
+					opaqueKeys++
+				}
+				vs = append(vs, vals[i])
+				continue
 			}
 			if !isPlainB(k) {
 				// an opaque key whose leading bytes are known from its construction (format literals, literal operands)
